@@ -1,4 +1,5 @@
 pub mod env;
+pub mod explore;
 pub mod problems;
 pub mod report;
 pub mod run;
@@ -6,4 +7,7 @@ pub mod util;
 
 pub mod regress;
 
+pub mod c03;
+pub mod c16;
 pub mod c17;
+pub mod c18;
